@@ -351,6 +351,6 @@ pub fn def() -> PropDef {
         level: "exploration",
         rule: "histories of <=25 (thorough 50) ops on the public WriteAheadLog API over real files: append(1-5 rows, 1-3 columns), flush-style truncate_before(acked x) (+persist x), start-up truncate_before(flushed+1), clean reopen, crash-during-append (entry cut at byte 0/1/21/22/23/len-1/any, also when the append had just rotated to a new segment) + reopen, crash-during-persist (flushed file left with 0-8 bytes) + reopen; segment limit in {one entry, three entries, large, 1 byte}. After every reopen: entries strictly increasing, each equal to the acknowledged payload of its seq, none unacknowledged, every acknowledged entry >= truncation point present, read_entries_after = filter, next_seq > max(acked, flushed file); every append returns a fresh seq. Non-trivial = a cut inside an entry followed by an append and a further reopen, or start-up truncation that left no entry in the log.",
         assumptions: &["a crash is modelled at the file API: files contain what was written, the last write may be cut at any byte (torn writes below the file API / reordering of un-fsynced data are not modelled; sync mode is every_write)", "truncate/persist are generated with the real callers' discipline (flush_batches, ensure_wal)"],
-        subs: || vec![Box::new(Sub::<Case> { name: "history", cases: |t| t.scale(20_000, 10), strategy, exec })],
+        subs: || vec![Box::new(Sub::<Case> { name: "history", cases: |t| t.scale(60_000, 6), strategy, exec })],
     }
 }
